@@ -453,8 +453,16 @@ fn api_cas_guard(by_value: bool, pattern: usize) {
         o += 1;
     }
     hooks_on();
+    hy::track_node_slots(node);
+    let w_st = model::watch(model::K_CAS_ANY, storage_addr(&s));
     let r = if by_value {
         let r = s.compare_and_swap(g, h);
+        // `current` given by value is a guard with a debt in slot 0: it protects the expected value
+        // (nobody can free it and re-use its address) until the exchange has been decided
+        let m = model::mon();
+        if model::w(w_st).count > 0 {
+            vassert!(m.slot_cas[0] > model::w(w_st).last, "cas_keeps_the_guard_passed_as_current_alive_until_the_exchange");
+        }
         r
     } else {
         let r = s.compare_and_swap(&g, h);
@@ -481,7 +489,7 @@ pub(crate) fn api_cas_refguard_default() {
     api_cas_guard(false, 4);
     vcover!("api_cas_refguard_default_end");
 }
-// @harness name=api_cas_guard_default props=C05 tier=thorough flavour=nostd timeout=1800 fn=ArcSwapAny::compare_and_swap+AsRaw::as_raw
+// @harness name=api_cas_guard_default props=C05 tier=quick flavour=nostd timeout=1800 fn=ArcSwapAny::compare_and_swap+AsRaw::as_raw
 #[cfg_attr(kani, kani::proof)]
 #[cfg_attr(kani, kani::stub(crate::debt::Debt::pay_all, crate::debt::verif_h::pay_all_stub))]
 #[cfg_attr(kani, kani::stub(crate::debt::LocalNode::with, crate::debt::verif_h::list_h::with_static))]
